@@ -668,6 +668,27 @@ def judge_single(ctx, obj, cname, E, metric, mode, value, missing, tags,
             ctx.violation(sig(cname, "recurrence_matrix",
                               "not-a-threshold-of-distances", mtags),
                           {**case, "lib": Rlib, "D": D}, cid)
+        if good and mode == "local_recurrence_rate" and metric != "supremum":
+            # (the supremum kernel skips NaN components, so states with
+            #  missing values have finite distances and take part in the
+            #  ranking before they are masked; what the count should be then
+            #  is not settled by the property - see DESIGN section 13)
+            # "every state the same number of recurrences locally": the
+            # int(rate * (N - 1)) nearest states, wherever that many states
+            # without missing values exist (tie-free rows)
+            k = ref.local_rate_count(n, value)
+            for i in np.flatnonzero(valid):
+                row = D[i, valid]
+                if k < row.size and np.unique(row).size == row.size:
+                    ctx.count("local_rate_rows_exact")
+                    if int(Rlib[i, :].sum()) != k:
+                        good = False
+                        ctx.violation(
+                            sig(cname, "recurrence_matrix",
+                                "row-count!=int(rr*(N-1))", mtags),
+                            {**case, "row": int(i),
+                             "lib": int(Rlib[i].sum()), "want": k}, cid)
+                        break
         Rref = Rlib
     else:
         if mode == "threshold_std":
